@@ -20,7 +20,7 @@ Proof. exact leaf_rejection_path. Qed.
 Print Assumptions C15_leaf_rejection_path.
 
 Theorem C15_inst_rejection_shape :
-  forall (vt : vtable) (x : pyval) (w : world) (pre : str) (c : icfg) (fs : list (str * inode)) (dyn : bool) (k : str) (rl : bool) (w' : world) (c' : icfg) (e : errk), set_value leaf lvalidate lto_python ldefault l_callable lflag (vrun vt) x w pre c fs dyn k rl = (w', c', OErr e) -> e = EAttribute \/ verr_below (path_join pre k) e.
+  forall (vt : ConfigInst.vtable) (x : pyval) (w : world) (pre : str) (c : icfg) (fs : list (str * inode)) (dyn : bool) (k : str) (rl : bool) (w' : world) (c' : icfg) (e : errk), set_value leaf lvalidate lto_python ldefault l_callable lflag (vrun vt) x w pre c fs dyn k rl = (w', c', OErr e) -> e = EAttribute \/ verr_below (path_join pre k) e.
 Proof. exact inst_rejection_shape. Qed.
 Print Assumptions C15_inst_rejection_shape.
 
@@ -53,6 +53,17 @@ Theorem C15_fields_leaf_rejection_path :
 Proof. exact cf_leaf_rejection_path. Qed.
 Print Assumptions C15_fields_leaf_rejection_path.
 
+(* configuration objects: the shape of every refusal *)
+
+Theorem C15_obj_rejection_shape :
+  forall (F : Type) (lvalidate lto_python : F -> pyval -> res pyval) (ldefault : F -> N -> pyval) (lcallable lflag : F -> bool) (vrun : N -> list (str * pyval) -> bool), (forall (f : F) (x : pyval) (q : str), lvalidate f x <> Err (EValidation q)) -> forall (o : cop) (w : world) (pre : str) (c : icfg) (dyn : bool) (vs : list N) (fs : list (str * node F)) (w' : world) (c' : icfg) (e : errk), apply_cop F lvalidate lto_python ldefault lcallable lflag vrun w pre c dyn vs fs o = (w', c', OErr e) -> match o with | CSetObj k _ => e = EAttribute \/ e = EValidation (path_join pre k) | CSetIdxObj k i _ => exists l : list icfg, dget k (c_data c) = Some (VList l) /\ (e = EIndex /\ (Datatypes.length l <= i)%nat \/ verr_below (path_index (path_join pre k) (N.of_nat (Datatypes.length l))) e) | CAppendObj k _ | CInsertObj k _ _ => exists l : list icfg, dget k (c_data c) = Some (VList l) /\ verr_below (path_index (path_join pre k) (N.of_nat (Datatypes.length l))) e | _ => True end.
+Proof. exact obj_rejection_shape. Qed.
+Print Assumptions C15_obj_rejection_shape.
+
+Theorem C15_inst_obj_rejection_shape :
+  forall (vt : ConfigInst.vtable) (o : cop) (w : world) (pre : str) (c : icfg) (dyn : bool) (vs : list N) (fs : list (str * inode)) (w' : world) (c' : icfg) (e : errk), apply_cop leaf lvalidate lto_python ldefault l_callable lflag (vrun vt) w pre c dyn vs fs o = (w', c', OErr e) -> match o with | CSetObj k _ => e = EAttribute \/ e = EValidation (path_join pre k) | CSetIdxObj k i _ => exists l : list icfg, dget k (c_data c) = Some (VList l) /\ (e = EIndex /\ (Datatypes.length l <= i)%nat \/ verr_below (path_index (path_join pre k) (N.of_nat (Datatypes.length l))) e) | CAppendObj k _ | CInsertObj k _ _ => exists l : list icfg, dget k (c_data c) = Some (VList l) /\ verr_below (path_index (path_join pre k) (N.of_nat (Datatypes.length l))) e | _ => True end.
+Proof. exact inst_obj_rejection_shape. Qed.
+Print Assumptions C15_inst_obj_rejection_shape.
 
 (* ---- entries of typed dict fields (DictProxy, model DictModel.v): every refusal is the validation error whose
    reference path is "<configuration path>.<field>[<key>]" with <key> the key AS GIVEN of the FIRST offending pair in
@@ -61,10 +72,7 @@ Print Assumptions C15_fields_leaf_rejection_path.
 From Cinco Require Import ListModel ListModelLemmas DictModel DictModelLemmas.
 
 Theorem C15_dict_rejection_entry :
-  forall (VK VV : pyval -> res pyval) (tg : N) (s : pairs) (op : dop) (s' : pairs) (e : errk),
-    dop_validating op = true -> kw_clash op = false ->
-    proxy_dstep VK VV tg s op = (s', Err e) ->
-    exists k, first_bad VK VV (dchecked s op) = Some k /\ e = EValidation (key_text k).
+  forall (VK VV : pyval -> res pyval) (tg : N) (s : pairs) (op : dop) (s' : pairs) (e : errk), dop_validating op = true -> kw_clash op = false -> proxy_dstep VK VV tg s op = (s', Err e) -> exists k : pyval, first_bad VK VV (dchecked s op) = Some k /\ e = EValidation (key_text k).
 Proof. exact dict_rejection_entry. Qed.
 Print Assumptions C15_dict_rejection_entry.
 
@@ -80,16 +88,12 @@ Print Assumptions C15_dict_first_bad_spec.
 
 (* whole-value assignment / constructor keyword / load of a plain dict (DictField._validate builds the proxy) *)
 Theorem C15_dict_init_rejection :
-  forall (VK VV : pyval -> res pyval) (items : pairs) (e : errk),
-    dp_init VK VV false items = Err e ->
-    exists k, first_bad VK VV items = Some k /\ e = EValidation (key_text k).
+  forall (VK VV : pyval -> res pyval) (items : pairs) (e : errk), dp_init VK VV false items = Err e -> exists k : pyval, first_bad VK VV items = Some k /\ e = EValidation (key_text k).
 Proof. exact dict_init_rejection. Qed.
 Print Assumptions C15_dict_init_rejection.
 
 (* an operation whose pairs are all acceptable never reports a validation error *)
 Theorem C15_dict_accepted_no_validation_error :
-  forall (VK VV : pyval -> res pyval) (tg : N) (s : pairs) (op : dop) (s' : pairs) (p : str),
-    kw_clash op = false -> daccepted VK VV s op = true ->
-    proxy_dstep VK VV tg s op <> (s', Err (EValidation p)).
+  forall (VK VV : pyval -> res pyval) (tg : N) (s : pairs) (op : dop) (s' : pairs) (p : str), kw_clash op = false -> daccepted VK VV s op = true -> proxy_dstep VK VV tg s op <> (s', Err (EValidation p)).
 Proof. exact dict_accepted_no_validation_error. Qed.
 Print Assumptions C15_dict_accepted_no_validation_error.
